@@ -338,6 +338,21 @@ def r_effect(ctx) -> RuleResult:
                     cs_ = ctx.cg.resolve_call(f_, n_, ctx.cg.local_types(f_), set(params_of(f_.node)))
                     if cs_.kind == "ext" and cs_.target == "networkx.set_node_attributes" and len(n_.args) >= 3 and try_const(ctx, f_, n_.args[2]) == explored:
                         out_.append(n_)
+                # the same thing as a loop:  for n in m / m.nodes: m.nodes[n][EXPLORED] = <constant>   (first statement of the body,
+                # not under a test)
+                if isinstance(n_, ast.For) and isinstance(n_.target, ast.Name) and n_.body:
+                    it_ = n_.iter
+                    while isinstance(it_, ast.Call) and isinstance(it_.func, ast.Name) and it_.func.id in ("list", "sorted", "tuple") and it_.args:
+                        it_ = it_.args[0]
+                    g_ = params_of(f_.node)[0] if params_of(f_.node) else None
+                    if g_ is not None and norm(it_) in (g_, f"{g_}.nodes", f"{g_}.nodes()"):
+                        for st_ in n_.body:
+                            if isinstance(st_, ast.Assign) and len(st_.targets) == 1 and isinstance(st_.targets[0], ast.Subscript) and try_const(ctx, f_, st_.targets[0].slice) == explored \
+                                    and norm(st_.targets[0].value) in (f"{g_}.nodes[{n_.target.id}]", f"{g_}._node[{n_.target.id}]") and isinstance(st_.value, ast.Constant):
+                                out_.append(n_)
+                                break
+                            if isinstance(st_, (ast.If, ast.While, ast.For, ast.Try, ast.Continue, ast.Break)):
+                                break
             all_inits[f_.fq] = out_
         return all_inits[f_.fq]
 
@@ -345,7 +360,9 @@ def r_effect(ctx) -> RuleResult:
         """the initialisation dominates `node` in f_, or dominates every call of f_ (in the serializer) in its callers"""
         c_ = cfg_of(f_.node)
         rn_ = c_.stmt_node_containing(node)
-        if any(c_.stmt_node_containing(i) is not None and rn_ is not None and c_.dominates(c_.stmt_node_containing(i), rn_) and c_.stmt_node_containing(i) != rn_ for i in inits_of(f_)):
+        def at(i):
+            return c_.node_of(i) if isinstance(i, ast.stmt) and c_.node_of(i) is not None else c_.stmt_node_containing(i)
+        if any(at(i) is not None and rn_ is not None and c_.dominates(at(i), rn_) and at(i) != rn_ for i in inits_of(f_)):
             return True
         if depth > 4:
             return False
